@@ -220,7 +220,7 @@ def replay_text(exe, text, only=None, trace=False, job=None):
 
 def has_sig(exe, text, prop, sig, job=None):
     is_crash_sig = sig.split("/")[0] in ("abort", "asan", "ubsan", "signal", "exit", "timeout", "valgrind")
-    sigs, h, crash, _ = replay_text(exe, text, only=None if is_crash_sig else prop, job=job)
+    sigs, h, crash, _ = replay_text(exe, text, only=(job or {}).get("only") if is_crash_sig else prop, job=job)
     if crash is not None:
         return is_crash_sig and crash[0] == sig
     return (prop, sig) in sigs
@@ -348,15 +348,17 @@ def check(prop, tier):
         if text is None:
             lines_out.append("MACHINERY-ERROR: cannot regenerate plan for seed %d" % seed); machinery_broken = True; continue
         # gate: two fresh-process replays must reproduce the same signature (and hash, if the run completes)
-        r1 = replay_text(exe, text, only=None if is_crash else p, job=job)
-        r2 = replay_text(exe, text, only=None if is_crash else p, job=job)
+        # a crash is replayed under the filter of the job that saw it: a run stops at its first recorded violation, so judging
+        # more properties than the batch worker did can end the run before it reaches the crash
+        r1 = replay_text(exe, text, only=job.get("only") if is_crash else p, job=job)
+        r2 = replay_text(exe, text, only=job.get("only") if is_crash else p, job=job)
         ok1 = (r1[2] is not None and r1[2][0] == sig) if is_crash else ((p, sig) in r1[0])
         ok2 = (r2[2] is not None and r2[2][0] == sig) if is_crash else ((p, sig) in r2[0])
         if is_crash and not (ok1 and ok2) and job["variant"] == "rel" and not job.get("valgrind"):
             # a memory error on the release build shows up (or not) depending on the heap history of the worker; the
             # sanitizer build decides it deterministically: replay the same plan there and report what it says
             sexe = build("san")
-            s1, s2 = replay_text(sexe, text), replay_text(sexe, text)
+            s1, s2 = replay_text(sexe, text, only=job.get("only")), replay_text(sexe, text, only=job.get("only"))
             if s1[2] is not None and s2[2] is not None and s1[2][0] == s2[2][0]:
                 job = dict(job, variant="san"); exe = sexe
                 sig, msg = s1[2][0], s1[2][1] + " (first seen as a non-reproducible %s on the release build)" % sig
@@ -386,7 +388,8 @@ def check(prop, tier):
         path = os.path.join(REPLAYS, "%s-%d.plan" % (prop, seed))
         with open(path, "w") as f:
             f.write(mtext)
-            f.write("# property=%s sig=%s variant=%s%s cfg=%s\n# %s\n" % (p, sig, job["variant"], " (under valgrind)" if job.get("valgrind") else "", job.get("cfg", ""), msg[:300]))
+            f.write("# property=%s sig=%s variant=%s%s cfg=%s judged=%s\n# %s\n" % (p, sig, job["variant"], " (under valgrind)" if job.get("valgrind") else "", job.get("cfg", ""),
+                                                                              (job.get("only") or "all") if is_crash else p, msg[:300]))
         if (p, sig) in known:
             lines_out.append("KNOWN-FINDING: property=%s sig=%s %s (replay=%s)" % (p, sig, known[(p, sig)], path))
         else:
@@ -516,6 +519,9 @@ def main():
         variant = a[a.index("--variant") + 1] if "--variant" in a else (m.group(1) if m else "rel")
         exe = build(variant)
         cmd = [exe, "replay", a[1]] + (["--trace"] if "--trace" in a else [])
+        mj = re.search(r"^# property=.* judged=(\S+)", txt, re.M)
+        if mj and mj.group(1) != "all" and "--all" not in a:
+            cmd += ["--only", mj.group(1)]        # the run stops at its first recorded violation: judge what the check judged
         kw = {}
         if m and m.group(2):
             cmd, kw = wrap(dict(valgrind=True), cmd)
